@@ -929,12 +929,21 @@ impl<T: Transport + 'static> SyncEngine<T> {
                     }
                     SyncAction::Update => {
                         if let Some(source) = &task.source {
+                            // (follow mode removes a destination LINK before it finds out whether the
+                            // source link resolves: the destination changes then)
+                            let dest_was_link = matches!(
+                                std::fs::symlink_metadata(&task.dest_path),
+                                Ok(ref m) if m.file_type().is_symlink()
+                            );
                             match transferrer.update(source, &task.dest_path).await {
-                                // In skip mode a symlink entry is left alone: it is a skipped entry,
-                                // not an updated one
+                                // A symlink entry that is left alone -- skip mode; follow mode with a
+                                // link that does not resolve to a file -- is a skipped entry, not an
+                                // updated one
                                 Ok(None)
                                     if source.is_symlink
-                                        && matches!(symlink_mode, SymlinkMode::Skip) =>
+                                        && (matches!(symlink_mode, SymlinkMode::Skip)
+                                            || (matches!(symlink_mode, SymlinkMode::Follow)
+                                                && !dest_was_link)) =>
                                 {
                                     {
                                         let mut stats = stats.lock().unwrap();
